@@ -245,3 +245,47 @@ def run(ck):
     # `existed` (unlink before re-creating) is only as good as the way files get into the map (shared with C16-R3)
     from . import c16
     c16.r3(ck, rule="C15-R7")
+    r8_existed_never_rewritten(ck)
+
+
+def r8_existed_never_rewritten(ck, rule="C15-R8"):
+    """`ModifiedFile.existed` says whether there is an inode to unlink before the file is created again; it describes the disk at the
+    start of the push and belongs to the record of a *name*.  It is set when a record is built and never afterwards: no assignment to
+    the field, no whole-record overwrite through a reference (`*record = ...`), no swap / replace / take of whole records."""
+    prog = ck.prog
+    MF = "libpatch::modified_file::ModifiedFile"
+    is_mf = lambda ty: isinstance(ty, str) and ty.replace("&mut ", "").replace("&", "").lstrip("'a ").startswith(MF)
+    built = 0
+    bad = []
+    for fn in prog.fns.values():
+        for bb, idx, s in fn.stmts():
+            if s["k"] != "assign" or fn.blocks[bb]["cleanup"]:
+                continue
+            rv = s["rv"]
+            if rv["k"] == "agg" and (rv.get("adt") or "") == MF:
+                built += 1
+            proj = s["lhs"].get("p") or []
+            if not proj:
+                continue
+            last = proj[-1]
+            if isinstance(last, dict) and last.get("adt") == MF and last.get("name") == "existed":
+                bad.append((fn, s, "assigns the field `existed` of an existing record"))
+            elif last == "deref" and is_mf(s["lhs"].get("ty") or ""):
+                bad.append((fn, s, "overwrites a whole record through a reference (its `existed` goes with it)"))
+        for bb, t in fn.calls():
+            if fn.blocks[bb]["cleanup"]:
+                continue
+            p = callee_of(t).get("path") or ""
+            if p in ("core::mem::swap", "core::mem::replace", "core::mem::take") or p.endswith("Clone::clone_from"):
+                if t["argtys"] and t["argtys"][0].startswith("&mut ") and is_mf(t["argtys"][0]):
+                    bad.append((fn, t, "%s on whole records (their `existed` goes with it)" % p.split("::")[-1]))
+    ck.floor(rule, "constructions of ModifiedFile", built, 3)
+    inst = "`existed` is fixed when a record is built"
+    if bad:
+        for fn, node, why in bad:
+            ck.violate(rule, inst + " (%s)" % fn.id.split("::")[-1],
+                       "%s %s: whether save unlinks the old inode before creating the file would no longer describe the disk at the start "
+                       "of the push - a file that is on disk can be truncated and rewritten in place, through every hard link" % (fn.id, why),
+                       fn.where(node))
+    else:
+        ck.ok(rule, inst, "%d constructions; no field assignment, no whole-record overwrite / swap / replace / take anywhere" % built)
